@@ -371,4 +371,7 @@ def run(rep):
     rep.extend(obs)
     if crashes:
         rep.crash = crashes[0]
+    from pgv.replayers import c19 as R19
+    for res in R19.point_isotherm_cases():
+        rep.add_bounded(f"{P}/bounded.{res['name']}", res['ok'], res['detail'], replay={'kind': 'c19.points', 'name': res['name']})
     rep.notes.append('2..5 temperatures in any order (the whole quantified range); enthalpies, offsets and temperatures symbolic')
